@@ -409,6 +409,14 @@ func genOpts(rt *rapid.T, set lp.Settings, keys []string) Opts {
 	return o
 }
 
+func seq(n int) []int {
+	o := make([]int, n)
+	for i := range o {
+		o[i] = i
+	}
+	return o
+}
+
 func TestRapidEvents(t *testing.T) {
 	var nFull, nAll int64
 	rapid.Check(t, func(rt *rapid.T) {
@@ -428,6 +436,17 @@ func TestRapidEvents(t *testing.T) {
 					p.Events[i].Method = rapid.SampledFrom([]string{"info", "warn", "error", "debug"}).Draw(rt, "lvlm")
 				}
 			}
+		}
+		if rapid.IntRange(0, 5).Draw(rt, "wide") == 0 {
+			// a wide event: 13..40 more fields with short distinct keys in random order (sorting code
+			// paths change behaviour with the number of elements)
+			nf := rapid.IntRange(13, 40).Draw(rt, "nwide")
+			var ops []lp.Op
+			for _, i := range rapid.Permutation(seq(nf)).Draw(rt, "wideorder") {
+				k := fmt.Sprintf("%c%c", 'a'+byte(i%26), 'a'+byte(i/26))
+				ops = append(ops, lp.Op{K: []byte(k), V: lp.Val{T: "int", I: int64(i)}})
+			}
+			p.Steps = append(p.Steps, lp.Step{Kind: "with", Ops: ops})
 		}
 		if rapid.IntRange(0, 7).Draw(rt, "ts") != 0 {
 			p.Steps = append(p.Steps, lp.Step{Kind: "with", Ops: []lp.Op{{V: lp.Val{T: "timestamp"}}}})
